@@ -284,7 +284,11 @@ pub fn gen_xz_plan(t: &mut Tape, max_block: u64) -> XzPlan {
     };
     let mut blocks = Vec::new();
     for _ in 0..nblocks {
-        let b = gen_lzma2(t, max_block, true);
+        let b = if max_block >= 500 && t.below(12) == 0 {
+            gen_lzma2_medium(t)
+        } else {
+            gen_lzma2(t, max_block, true)
+        };
         blocks.push(BlockPlan {
             payload: b.bytes,
             content: b.expect,
@@ -575,5 +579,46 @@ pub fn gen_long(t: &mut Tape, marker: u64) -> LzmaBuilt {
         gen_long_marker(t)
     } else {
         gen_long_symbol(t, marker)
+    }
+}
+
+/// A block of 16 KiB .. 200 KB built from uncompressed chunks (cheap), with
+/// sizes biased to the values whose multi-byte integer encoding has an all-zero
+/// 7-bit group in the middle (16384+d, 32768+d, 65536+d, d < 128): sizes of
+/// three-byte integers in the block header and the index.
+pub fn gen_lzma2_medium(t: &mut Tape) -> Lzma2Built {
+    let u = match t.below(5) {
+        0 => 16384 + t.below(128),
+        1 => 32768 + t.below(128),
+        2 => 65536 + t.below(128),
+        3 => 16384 - 20 + t.below(40),
+        _ => t.range(16384, 200_000),
+    } as usize;
+    let mut w = Lzma2Writer::new();
+    let seed = t.byte();
+    let mut left = u;
+    let mut first = true;
+    let mut note = String::new();
+    while left > 0 {
+        let n = match t.below(3) {
+            0 => left.min(0x10000),
+            1 => left.min(t.range(1, 0x10000) as usize),
+            _ => left.min(0x8000),
+        };
+        let base = w.out_len();
+        let data: Vec<u8> = (0..n).map(|i| ((base + i) as u8).wrapping_mul(31).wrapping_add(seed)).collect();
+        w.raw_chunk(first, &data);
+        note.push_str(if first { "U1 " } else { "U2 " });
+        first = false;
+        left -= n;
+    }
+    w.end();
+    Lzma2Built {
+        ps: gen::ProgStats::default(),
+        bytes: std::mem::take(&mut w.bytes),
+        expect: std::mem::take(&mut w.enc.model.out),
+        chunks: std::mem::take(&mut w.chunks),
+        trace: Vec::new(),
+        note,
     }
 }
